@@ -24,7 +24,7 @@ var documentedPanics = map[string]struct {
 
 // PanicInventory enumerates every instruction that can panic at the language or reflect level in the
 // functions reachable from the entry points and requires each to be closed by a discharge rule.
-func PanicInventory(cgEntries []string, dynEntries []DynEntry, universe []atom, domainText string) Rule {
+func PanicInventory(cgEntries []string, dynEntries []DynEntry, universe []atom, domainText string, opts ...string) Rule {
 	return func(p *core.Prog, r *core.Report) {
 		cg := core.BuildCallGraph(p)
 		reach, missing := cg.Reachable(cgEntries...)
@@ -32,8 +32,14 @@ func PanicInventory(cgEntries []string, dynEntries []DynEntry, universe []atom, 
 			r.Unk("PANIC-INVENTORY", "entry:"+m, "-", "entry point not found")
 		}
 		r.Count("reachable_functions", len(reach))
-		r.Floor("reachable_functions", 60)
-		di := runDyn(p, r, "D-DYN", dynEntries, universe, domainText)
+		minReach := 60
+		for _, o := range opts {
+			if o == "helpers" {
+				minReach = 15
+			}
+		}
+		r.Floor("reachable_functions", minReach)
+		di := runDyn(p, r, "D-DYN", dynEntries, universe, domainText, opts...)
 		pi := di.na.slotFields.pi
 
 		nPanic, nDiv, nTA, nRefl := 0, 0, 0, 0
